@@ -182,6 +182,8 @@ SA  == <<"str", <<97>> >>
 XValsTiny   == {N1i, N2i}
 YValsTiny   == {N1i}
 LitTiny     == {N1i, N2i}
+XValsNil    == {Nil, N1i, N2i}
+LitNil      == {Nil, N1i, N2i}
 XValsSmall  == {Nil, N1i, N1f, N2i, SA}
 YValsSmall  == {N2i}
 LitSmall    == {Nil, N1f, N2i}
